@@ -541,6 +541,9 @@ func Edits(d *Dialect) []Edit {
 			Edit{"index_predicate", []string{"idx:idx_d_part"}, func(s *schema.Schema) {
 				I(T(s, "t"), "idx_d_part").Attrs = []schema.Attr{&postgres.IndexPredicate{P: "d > 1"}}
 			}, []string{mt("ModifyIndex(idx_d_part)[attr]")}},
+			Edit{"index_predicate_template_chars", []string{"idx:idx_d_part"}, func(s *schema.Schema) {
+				I(T(s, "t"), "idx_d_part").Attrs = []schema.Attr{&postgres.IndexPredicate{P: "b <> '%{x}' AND b <> '${y}'"}}
+			}, []string{mt("ModifyIndex(idx_d_part)[attr]")}},
 			Edit{"index_type", []string{"idx:idx_d_hash"}, func(s *schema.Schema) {
 				I(T(s, "t"), "idx_d_hash").Attrs = []schema.Attr{&postgres.IndexType{T: "BTREE"}}
 			}, []string{mt("ModifyIndex(idx_d_hash)[attr]")}},
@@ -577,6 +580,9 @@ func Edits(d *Dialect) []Edit {
 			Edit{"strict_added", []string{"tattr:strict"}, func(s *schema.Schema) { T(s, "t").AddAttrs(&sqlite.Strict{}) }, []string{mt("AddAttr(Strict)")}},
 			Edit{"index_predicate", []string{"idx:idx_d_part"}, func(s *schema.Schema) {
 				I(T(s, "t"), "idx_d_part").Attrs = []schema.Attr{&sqlite.IndexPredicate{P: "d > 1"}}
+			}, []string{mt("ModifyIndex(idx_d_part)[attr]")}},
+			Edit{"index_predicate_template_chars", []string{"idx:idx_d_part"}, func(s *schema.Schema) {
+				I(T(s, "t"), "idx_d_part").Attrs = []schema.Attr{&sqlite.IndexPredicate{P: "b <> '%{x}' AND b <> '${y}'"}}
 			}, []string{mt("ModifyIndex(idx_d_part)[attr]")}},
 			Edit{"autoincrement_added", []string{"col:id"}, func(s *schema.Schema) { C(T(s, "t"), "id").AddAttrs(&sqlite.AutoIncrement{}) }, []string{mt("ModifyColumn(id)[attr]")}},
 			Edit{"unnamed_check_dropped", []string{"check:"}, func(s *schema.Schema) {
